@@ -31,7 +31,7 @@ def plan(tier):
 
 def floors(tier):
     return {"min_decided": 1500, "counters": {"rebalance_calls": 3000, "target_evals": 6000, "closed_evals": 1500, "cash_fraction_calls": 800,
-                                              "sub_spread_evals": 500, "rot_steps": 1500, "exact_evals": 1000}, "max_undecided_frac": 0.3}
+                                              "sub_spread_evals": 500, "rot_steps": 1500, "exact_evals": 1000, "empty_target_calls": 150}, "max_undecided_frac": 0.3}
 
 
 def call_costs(events, root, kind):
@@ -92,12 +92,17 @@ def case_rebalance(cs):
         traded_any = False
         for step in range(rng.randint(1, 3)):
             root.update(dts[1 + step])
-            tg = rng.sample(names, rng.randint(1, len(names)))
-            ws = rs.dirichlet(np.ones(len(tg))) * rng.uniform(0.3, 1.0)
-            if rng.random() < 0.3 and tg[0] != "sub":
+            tg = rng.sample(names, rng.randint(1, len(names))) if rng.random() > 0.1 else []
+            ws = rs.dirichlet(np.ones(len(tg))) * rng.uniform(0.3, 1.0) if tg else []
+            if tg and rng.random() < 0.3 and tg[0] != "sub":
                 ws[0] = -ws[0]
+            if tg and rng.random() < 0.1:
+                ws[-1] = 0.0     # an explicit zero weight closes the child
             targets = dict(zip(tg, [float(x) for x in ws]))
-            root.temp = {"weights": dict(targets)}
+            as_series = rng.random() < 0.15
+            root.temp = {"weights": (pd.Series(targets, dtype=float) if as_series else dict(targets))}
+            if not tg:
+                common.bump(cnt, "empty_target_calls")
             cash = 0.0
             if use_cash:
                 cash = rng.uniform(0.05, 0.5)
@@ -118,6 +123,10 @@ def case_rebalance(cs):
                 c = root.children.get(n)
                 if n in targets:
                     T = (1 - cash) * targets[n] * V0
+                    if c is None:
+                        if T == 0:
+                            continue      # a zero target for a child that never existed: nothing to do
+                        return common.result(common.VIOL, sig=sig, nt=True, cnt=cnt, mech="c06_target_missed", witness=dict(w, child=n, what="target child never created"))
                     v = c.value
                     common.bump(cnt, "target_evals")
                     if exact:
